@@ -124,7 +124,11 @@ func cmdDump(w *World, args []string, verbose bool, showQuery string) int {
 			fmt.Println("no such function:", name)
 			continue
 		}
-		fx := newFnExec(w, fn, w.Contracts.ByName[name])
+		ct := w.Contracts.ByName[name]
+		if ic := w.Contracts.ByName["impl "+name]; ic != nil {
+			ct = ic // the contract the body is checked against
+		}
+		fx := newFnExec(w, fn, ct)
 		obls, err := fx.Run()
 		if err != nil {
 			fmt.Println("error:", err)
